@@ -53,6 +53,9 @@ def one(sid, a):
                           "with_input": bool(viol) and not viol[0].rstrip().endswith("no-failing-input-found")}
     res["caught"] = res["checks"][pid]["caught"]
     res["with_input"] = res["checks"][pid]["with_input"]
+    if meta.get("retired"):  # a change that became harmless (its demo passes on the current tree): the check must stay OK
+      res["retired"] = meta["retired"]
+      res["harmless_ok"] = res["checks"][pid]["rc"] == 0
     res["wall_s"] = round(time.time() - t0, 1)
     return res
   finally:
@@ -86,6 +89,10 @@ def main():
   for r in results:
     if "error" in r:
       print("%-14s %-4s ERROR %s" % (r["id"], r["property"], r["error"])); bad += 1; continue
+    if "retired" in r:
+      print("%-14s %-4s %s  %ss" % (r["id"], r["property"], "HARMLESS-OK (control: check stays OK)" if r["harmless_ok"]
+                                    else "FALSE-ALARM on a harmless change", r["wall_s"]))
+      bad += not r["harmless_ok"]; continue
     print("%-14s %-4s %s %s  %ss" % (r["id"], r["property"], "CAUGHT" if r["caught"] else "MISSED",
                                      "(failing input)" if r["with_input"] else "(no-failing-input-found)" if r["caught"] else "", r["wall_s"]))
     bad += not r["caught"]
